@@ -197,6 +197,7 @@ func main() {
 	}
 	rn.BigElementChecks()
 	rn.SizeFieldBoundaryCases()
+	rn.ShortUDTCases()
 	rn.Recheck()
 	o.Extra["coverage_matrix"] = rn.Matrix
 	o.Finish("From GocqlV Require Import Lib.Base C12.Model C12.Spec C12.Corr C02.Corr.", "C02.Corr.case", "C02.Corr.run")
